@@ -1620,8 +1620,34 @@ def _opaque_reduction(tag, a: SymArr):
         app = z3.Function(name, *[c.sort() for c in frees], rng)(*frees)
     else:
         app = z3.Const(name, rng)
-    _RED_APPS[app.sexpr()] = (tag, a.frozen(), a.shape, a.kind)
+    fz = a.frozen()
+    _RED_APPS[app.sexpr()] = (tag, fz, a.shape, a.kind)
+    if core.active() and tag in ("MAX", "MIN"):
+        # definition of max/min over a non-empty index range: the value is attained at some index
+        c = ctx()
+        ws = [z3.Int(f"w_{name}_{j}") for j in range(a.ndim)]
+        nonempty = z3.And(*[s > 0 for s in shape]) if shape else z3.BoolVal(True)
+        c.solver.add(z3.Implies(nonempty, z3.And(*([w >= 0 for w in ws] + [w < s for w, s in zip(ws, shape)] + [app == fz(tuple(ws))]))))
     return app
+
+
+def reduction_bound_fact(app, idx):
+    """definitional fact for an index tuple in range:  MAX >= elem(idx)  /  MIN <= elem(idx) /
+    ANY <= elem / ALL => elem"""
+    info = _RED_APPS.get(unwrap(app).sexpr())
+    if info is None:
+        raise core.EngineError("not a registered reduction term")
+    tag, fz, shape, kind = info
+    e = fz(tuple(to_int(i) for i in idx))
+    rng = z3.And(*[z3.And(to_int(i) >= 0, to_int(i) < _zsize(s)) for i, s in zip(idx, shape)]) if shape else z3.BoolVal(True)
+    a = unwrap(app)
+    if tag == "MAX":
+        return z3.Implies(rng, a >= e)
+    if tag == "MIN":
+        return z3.Implies(rng, a <= e)
+    if tag == "ANY":
+        return z3.Implies(z3.And(rng, e), a)
+    return z3.Implies(z3.And(rng, a), e)
 
 
 def reduction_info(app):
